@@ -77,7 +77,7 @@ pub fn hooked_parts(parts: &[AtomicUsize]) -> &[HookedUsize] {
 
 impl HookedBool {
     fn index(&self) -> usize {
-        (self as *const Self as usize - LOCK_BASE.load(Ordering::SeqCst))
+        (self as *const Self as usize).wrapping_sub(LOCK_BASE.load(Ordering::SeqCst))
             / std::mem::size_of::<Self>()
     }
 
@@ -111,7 +111,7 @@ impl HookedBool {
 
 impl HookedUsize {
     fn index(&self) -> usize {
-        (self as *const Self as usize - PART_BASE.load(Ordering::SeqCst))
+        (self as *const Self as usize).wrapping_sub(PART_BASE.load(Ordering::SeqCst))
             / std::mem::size_of::<Self>()
     }
 
